@@ -37,16 +37,18 @@ def main():
         tmp = tempfile.mkdtemp(prefix="verif_selftest_")
         try:
             overlay = {}
+            texts = {}
             for ed in m["edits"]:
                 src = os.path.join(REPO, ed["file"])
-                text = open(src).read()
+                text = texts.get(src) or open(src).read()
                 if text.count(ed["find"]) != 1:
                     print("SELFTEST-BROKEN %s: pattern occurs %d times in %s" % (m["id"], text.count(ed["find"]), ed["file"]))
                     fails += 1
                     overlay = None
                     break
                 dst = os.path.join(tmp, ed["file"].replace("/", "__"))
-                open(dst, "w").write(text.replace(ed["find"], ed["replace"]))
+                texts[src] = text.replace(ed["find"], ed["replace"])
+                open(dst, "w").write(texts[src])
                 overlay[src] = dst
             if overlay is None:
                 continue
